@@ -144,6 +144,17 @@ theorem partition_irrelevant (g : Graph) (pt pt' : Part) (inputs : List Nat) (σ
   rw [h1] at h2
   exact Option.some.inj h2
 
+/-- **link → IO renumbering never clashes**: inside one collapse list two different instance ports
+    are never given the same CP output index, the same CP input index, or the same temporary (the
+    `currNewOutput` / `currNewInput` / `currNewReg` counters) -/
+theorem io_renumbering_injective (g : Graph) (l : List Nat) (i a i' a' k : Nat) (hi : i ∈ l) (hi' : i' ∈ l) :
+    (a < g.nOut i → a' < g.nOut i' → outPort g l i a = some k → outPort g l i' a' = some k → i = i' ∧ a = a') ∧
+    (a < g.nOut i → a' < g.nOut i' → tempIdx g l i a = some k → tempIdx g l i' a' = some k → i = i' ∧ a = a') ∧
+    (a < g.nIn i → a' < g.nIn i' → inPort g l i a = some k → inPort g l i' a' = some k → i = i' ∧ a = a') :=
+  ⟨fun h1 h2 => outPort_inj g l i a i' a' k hi h1 hi' h2,
+   fun h1 h2 => tempIdx_inj g l i a i' a' k hi h1 hi' h2,
+   fun h1 h2 => inPort_inj g l i a i' a' k hi h1 hi' h2⟩
+
 /-- the dataflow evaluation is the unique solution of the graph's equations (what "direct
     evaluation" means does not depend on an evaluation order) -/
 theorem eval_unique (g : Graph) (inputs : List Nat) (hwf : g.wf = true) (V : Nat → Nat → Nat)
